@@ -178,8 +178,8 @@ func (c *fakeConn) Close() error {
 	return nil
 }
 
-func (c *fakeConn) LocalAddr() net.Addr                { return fakeAddr("fake-local") }
-func (c *fakeConn) RemoteAddr() net.Addr               { return c.addr }
+func (c *fakeConn) LocalAddr() net.Addr  { return fakeAddr("fake-local") }
+func (c *fakeConn) RemoteAddr() net.Addr { return c.addr }
 func (c *fakeConn) SetDeadline(t time.Time) error {
 	c.mu.Lock()
 	c.rdl, c.wdl = t, t
@@ -215,8 +215,13 @@ func (c *fakeConn) deliver(b ...byte) {
 	c.cond.Broadcast()
 	c.mu.Unlock()
 }
-func (c *fakeConn) peerClose()       { c.mu.Lock(); c.peerClosed = true; c.cond.Broadcast(); c.mu.Unlock() }
-func (c *fakeConn) fireReadTimeout() { c.mu.Lock(); c.readTimeout = true; c.cond.Broadcast(); c.mu.Unlock() }
+func (c *fakeConn) peerClose() { c.mu.Lock(); c.peerClosed = true; c.cond.Broadcast(); c.mu.Unlock() }
+func (c *fakeConn) fireReadTimeout() {
+	c.mu.Lock()
+	c.readTimeout = true
+	c.cond.Broadcast()
+	c.mu.Unlock()
+}
 func (c *fakeConn) failWrites(err error) {
 	c.mu.Lock()
 	c.writeErr = err
